@@ -188,7 +188,7 @@ struct Note { std::string tag; Val v; std::string text; bool is_text = false; };
 struct Input { std::string name; unsigned bits; EP e; };
 struct VFile { std::vector<Byte> data; bool exists = true; };
 struct Stream { std::string name; uint64_t pos = 0; bool open = true; bool writable = false; bool readable = false; int unget = -1; bool eof = false; };
-struct Rendered { std::vector<unsigned> digit_ids; EP value; unsigned guard_id; bool neg; };
+struct Rendered { std::vector<unsigned> digit_ids; std::vector<Byte> digit_bytes; EP value; unsigned guard_id; bool neg; };
 
 struct State
 {
@@ -284,7 +284,9 @@ static z3::check_result solve(State &s, const z3::expr *extra, std::shared_ptr<z
   if (r == z3::sat && out) *out = std::make_shared<z3::model>(SOLVER->get_model());
   if (extra) SOLVER->pop();
   ST.queries++;
-  ST.solver_s += std::chrono::duration<double>(std::chrono::steady_clock::now() - t0).count();
+  double dt = std::chrono::duration<double>(std::chrono::steady_clock::now() - t0).count();
+  ST.solver_s += dt;
+  if (OPT.verbose && dt > 0.05) fprintf(stderr, "symx: slow query %.3fs (%s) pc=%zu: %s\n", dt, r == z3::sat ? "sat" : r == z3::unsat ? "unsat" : "unknown", s.pc.size(), extra ? extra->to_string().substr(0, 400).c_str() : "(pc)");
   if (r == z3::unknown)
   {
     INCONCLUSIVE = true; INCONCLUSIVE_WHY = "solver returned unknown (timeout " + std::to_string(OPT.query_timeout_ms) + " ms)";
@@ -354,6 +356,54 @@ static std::vector<uint64_t> feasible_values(State &s, const z3::expr &e, unsign
   SOLVER->pop();
   ST.solver_s += std::chrono::duration<double>(std::chrono::steady_clock::now() - t0).count();
   return out;
+}
+
+// ---- small-support enumeration: an expression over a few narrow variables (e.g. an opcode byte) is
+// enumerated through those variables, so the solver only ever sees (var == value) instead of offset arithmetic
+static void free_vars_rec(const z3::expr &e, std::set<unsigned> &seen, std::vector<z3::expr> &vars, unsigned &bits, unsigned limit)
+{
+  if (bits > limit) return;
+  unsigned id = Z3_get_ast_id(Z, e);
+  if (seen.count(id)) return;
+  seen.insert(id);
+  if (e.is_const() && !e.is_numeral())
+  {
+    if (e.is_bv()) { vars.push_back(e); bits += e.get_sort().bv_size(); }
+    else if (!e.is_bool() || (!e.is_true() && !e.is_false())) bits = limit + 1;
+    return;
+  }
+  if (!e.is_app()) { bits = limit + 1; return; }
+  if (e.is_app() && e.decl().decl_kind() == Z3_OP_UNINTERPRETED && e.num_args() > 0) { bits = limit + 1; return; }
+  for (unsigned i = 0; i < e.num_args(); i++) free_vars_rec(e.arg(i), seen, vars, bits, limit);
+}
+struct Support { std::vector<z3::expr> vars; unsigned bits = 0; bool ok = false; };
+static Support small_support(const z3::expr &e, unsigned limit)
+{
+  Support sp; std::set<unsigned> seen;
+  free_vars_rec(e, seen, sp.vars, sp.bits, limit);
+  sp.ok = sp.bits <= limit && !sp.vars.empty();
+  return sp;
+}
+static z3::expr support_cat(const Support &sp)
+{
+  z3::expr cat = sp.vars[0];
+  for (size_t i = 1; i < sp.vars.size(); i++) cat = z3::concat(cat, sp.vars[i]);
+  return cat;
+}
+// value of e under the assignment cat == a
+static uint64_t eval_under(const Support &sp, const z3::expr &e, uint64_t a)
+{
+  z3::expr_vector from(Z), to(Z);
+  unsigned shift = sp.bits;
+  for (auto &v : sp.vars)
+  {
+    unsigned w = v.get_sort().bv_size(); shift -= w;
+    from.push_back(v); to.push_back(Z.bv_val((uint64_t)((a >> shift) & ((w >= 64) ? ~0ULL : ((1ULL << w) - 1))), w));
+  }
+  z3::expr r = z3::expr(e).substitute(from, to).simplify();
+  uint64_t c = 0;
+  if (!r.is_numeral_u64(c)) die("small-support evaluation did not produce a numeral");
+  return c;
 }
 
 // request to re-execute the current instruction under each alternative constraint
